@@ -79,6 +79,8 @@ package cors
 //@   ensures C05.max_age_accept: (-1 <= delta && delta <= 86400) ==> result == nil
 //@   ensures result == nil && delta == 0 ==> icfg.acma === old(icfg.acma)
 //@   ensures result == nil && delta != 0 ==> len(icfg.acma) == 1 && icfg.acma != nil
+//@   ensures C06.max_age_stored: result == nil && delta == -1 ==> icfg.acma[0] == "0"
+//@   ensures C06.max_age_stored_positive: result == nil && delta > 0 ==> icfg.acma[0] === ItoaOf(delta)
 //@   ensures C05.max_age_error: result != nil ==> dyntype(result, "*cfgerrors.MaxAgeOutOfBoundsError") && payload(result, "*cfgerrors.MaxAgeOutOfBoundsError") != nil && payload(result, "*cfgerrors.MaxAgeOutOfBoundsError").Value == delta && payload(result, "*cfgerrors.MaxAgeOutOfBoundsError").Default == 5 && payload(result, "*cfgerrors.MaxAgeOutOfBoundsError").Max == 86400 && payload(result, "*cfgerrors.MaxAgeOutOfBoundsError").Disable == -1
 
 //@ func internalConfig.validateMethods
@@ -239,9 +241,15 @@ package cors
 
 //@ func newConfig
 //@   props C06 C12 C17
+//@   uses atoi_itoa
 //@   requires icfg != nil ==> ICfgInv(icfg)
 //@   ensures icfg == nil ==> result == nil
 //@   ensures icfg != nil ==> result != nil && isfresh(result)
+//@   ensures C06.switches: icfg != nil ==> result.Credentialed == icfg.credentialed && result.ExtraConfig.PrivateNetworkAccess == icfg.privateNetworkAccess && result.ExtraConfig.PrivateNetworkAccessInNoCORSModeOnly == icfg.privateNetworkAccessNoCors && result.ExtraConfig.DangerouslyTolerateInsecureOrigins == icfg.insecureOrigins && result.ExtraConfig.DangerouslyTolerateSubdomainsOfPublicSuffixes == icfg.subsOfPublicSuffixes
+//@   ensures C06.status: icfg != nil ==> result.ExtraConfig.PreflightSuccessStatus == StatusOf(icfg.preflightStatusMinus200)
+//@   ensures C06.max_age: icfg != nil ==> result.MaxAgeInSeconds == (len(icfg.acma) == 0 ? 0 : (icfg.acma[0] == "0" ? -1 : AtoiOf(icfg.acma[0])))
+//@   ensures C06.max_age_in_range: icfg != nil ==> -1 <= result.MaxAgeInSeconds && result.MaxAgeInSeconds <= 86400
+//@   ensures C06.star_lists: icfg != nil ==> (icfg.allowAnyMethod ==> len(result.Methods) == 1 && result.Methods[0] == "*") && (icfg.tree.IsEmpty() ==> len(result.Origins) == 1 && result.Origins[0] == "*") && (icfg.asteriskReqHdrs ==> len(result.RequestHeaders) >= 1 && result.RequestHeaders[0] == "*" && (len(result.RequestHeaders) == 2) == (!icfg.credentialed && icfg.allowAuthorization)) && ((!icfg.asteriskReqHdrs && len(icfg.allowedReqHdrs.elems) == 0) ==> len(result.RequestHeaders) == 0) && ((!icfg.allowAnyMethod && len(icfg.allowedMethods.elems) == 0) ==> len(result.Methods) == 0)
 
 //@ func Middleware.Config
 //@   props C06 C07 C17
